@@ -46,6 +46,7 @@ package native
 //@ axiom tcat_empty: forall a text :: tcat(a, txt("")) == a && tcat(txt(""), a) == a
 //@ axiom txt_split: forall a bytes, o int, n1 int, o2 int, n2 int :: { tcat(arrtxt(a, o, n1), arrtxt(a, o2, n2)) } (o2 == o + n1 && n1 >= 0 && n2 >= 0) ==> tcat(arrtxt(a, o, n1), arrtxt(a, o2, n2)) == arrtxt(a, o, n1 + n2)
 //@ axiom html_empty: htmlSpec(txt("")) == txt("")
+//@ axiom quote_empty: forall f uint64 :: quoteSpec(txt(""), f) == txt("")
 
 // html_escape(sp, nb, dp, &dn): reads only [sp, sp+nb), writes only [dp, dp+dn0) (C05, C06);
 // dn becomes the number of bytes written.  On success the output is the escaping of
@@ -60,6 +61,20 @@ package native
 //@   ensures result >= 0 ==> (result == nb && rawtxt(dp, *dn) == htmlSpec(old(rawtxt(s, nb))))
 //@   ensures result < 0 ==> (0 <= -result - 1 && -result - 1 < nb)
 //@   ensures result < 0 ==> htmlSpec(old(rawtxt(s, nb))) == tcat(rawtxt(dp, *dn), htmlSpec(old(rawtxtat(s, ptrindex(s) + (-result - 1), nb - (-result - 1)))))
+//@   ensures forall j int :: (ptrlo(dp) <= j && j < ptrindex(dp)) ==> rawat(dp, j) == old(rawat(dp, j))
+//@   ensures forall lo int, n int :: { rawtxtat(dp, lo, n) } (ptrlo(dp) <= lo && 0 <= n && lo + n <= ptrindex(dp)) ==> rawtxtat(dp, lo, n) == old(rawtxtat(dp, lo, n))
+
+// quote(sp, nb, dp, &dn, flags): same shape as html_escape; the output is the JSON
+// string-literal body of the input (doubly escaped with F_DOUBLE_UNQUOTE), and the
+// "output full" return is restartable at sp + ^ret.
+//@ func Quote assumed "native quote (pre-assembled machine code)"
+//@   requires nb >= 0 && ptrlo(s) <= ptrindex(s) && ptrindex(s) + nb <= ptrhi(s)
+//@   requires *dn >= 0 && ptrlo(dp) <= ptrindex(dp) && ptrindex(dp) + *dn <= ptrhi(dp)
+//@   modifies *dn, rawmem(dp)
+//@   ensures 0 <= *dn && *dn <= old(*dn)
+//@   ensures result >= 0 ==> (result == nb && rawtxt(dp, *dn) == quoteSpec(old(rawtxt(s, nb)), flags))
+//@   ensures result < 0 ==> (0 <= -result - 1 && -result - 1 < nb)
+//@   ensures result < 0 ==> quoteSpec(old(rawtxt(s, nb)), flags) == tcat(rawtxt(dp, *dn), quoteSpec(old(rawtxtat(s, ptrindex(s) + (-result - 1), nb - (-result - 1))), flags))
 //@   ensures forall j int :: (ptrlo(dp) <= j && j < ptrindex(dp)) ==> rawat(dp, j) == old(rawat(dp, j))
 //@   ensures forall lo int, n int :: { rawtxtat(dp, lo, n) } (ptrlo(dp) <= lo && 0 <= n && lo + n <= ptrindex(dp)) ==> rawtxtat(dp, lo, n) == old(rawtxtat(dp, lo, n))
 
